@@ -1,11 +1,21 @@
 //! Background worker thread sink for aggregation
 
+#[cfg(not(metrique_verif))]
 use std::{
     marker::PhantomData,
     sync::Arc,
     sync::mpsc::{Sender, channel},
     thread,
     time::{Duration, Instant},
+};
+#[cfg(metrique_verif)]
+use ::{
+    detsim::{
+        sync::mpsc::{Sender, channel},
+        thread,
+        time::Instant,
+    },
+    std::{marker::PhantomData, sync::Arc, time::Duration},
 };
 use tokio::sync::oneshot;
 
